@@ -5,6 +5,7 @@
   Helper lemmas: `Lemmas/C15.lean`.
 -/
 import LiquidModel.Lemmas.C15
+import LiquidModel.Props.C07
 namespace Liquid.C15
 open Liquid
 
@@ -406,5 +407,26 @@ example : parseI64 "2.5".toList = none ∧ parseF64 "2.5".toList = some 0x400400
 example : (Sc.str "-42".toList).toInteger? = some (-42) := by decide
 example : parseF64 "2.5".toList = some 0x4004000000000000 := by decide
 example : parseF64 "-1e-2x".toList = none ∧ parseF64 "1e".toList = none ∧ parseF64 ".".toList = none := by decide
+
+/-- **An explicit `+` does not change the number a string spells**: `"+N"` and `"N"` denote the same
+integer for every N in range (so `"+7" | divided_by: 2` is integer arithmetic like `7 | divided_by: 2`). -/
+theorem C15_plus_spelling (n : Nat) (h : inI64 n = true) :
+    (Sc.str ('+' :: natDigits n)).toInteger? = some (n : Int) ∧
+    (Sc.str (natDigits n)).toInteger? = some (n : Int) := by
+  have h2 := C07.parseI64_natDigits n h
+  refine ⟨?_, by simpa [Sc.toInteger?] using h2⟩
+  simp only [Sc.toInteger?]
+  -- `parseI64 ('+' :: r)` runs the same digit loop as `parseI64 r` when `r` starts with a digit
+  have hne := C07.natDigits_ne_nil n
+  have hd := C07.natDigits_isDigit n
+  unfold parseI64 at h2 ⊢
+  cases hr : natDigits n with
+  | nil => exact absurd hr hne
+  | cons c r =>
+    have hc : c.isDigit = true := hd c (by rw [hr]; exact List.mem_cons_self)
+    have h1 : c ≠ '-' := by intro e; subst e; simp [Char.isDigit] at hc
+    have h3 : c ≠ '+' := by intro e; subst e; simp [Char.isDigit] at hc
+    rw [hr] at h2
+    simpa [h1, h3] using h2
 
 end Liquid.C15
